@@ -266,3 +266,21 @@ def main(ctx):
     rep.coverage["toy_curves"] = cover
     rep.coverage["real_curves"] = names
     return rep
+
+
+def mixed_cases(ctx):
+    from ecdsa import curves as cv
+    groups = []
+    for names in catalog.same_length_groups():
+        items = []
+        for nm in names:
+            if nm == "SECP112r2":
+                continue
+            n = int(getattr(cv, nm).order)
+            for (d, k) in ((5, 7), (n - 5, 7), (3, n - 2)):
+                for dec in ("string", "der"):
+                    items.append(("real", dict(curve=nm, d=d, k=k,
+                                               digest=b"\x42" * 20, dec=dec,
+                                               allow_truncate=True)))
+        groups.append(items)
+    return groups
